@@ -424,6 +424,20 @@ def gen_Sb31Consts():
     L.append("def cfgKeys : List (String × List String) := [" +
              ", ".join(f'(\"{a}\", [{", ".join(chr(34) + k + chr(34) for k in ks)}])' for a, ks in keys) + "]")
     meta["cfg_keys"] = {a: ks for a, ks in keys}
+    # keys read with a default (`config.get("k", d)`): optional in a configuration; d as written
+    opts = []
+    for cname in sorted({b for _, b in n2c}):
+        fn = _fun(_cls(cmd, cname), "load_from_config")
+        ds = {}
+        for n in ast.walk(fn) if fn is not None else []:
+            if isinstance(n, ast.Call) and isinstance(n.func, ast.Attribute) and n.func.attr == "get" \
+                    and isinstance(n.func.value, ast.Name) and n.func.value.id == "config" and len(n.args) == 2 \
+                    and isinstance(n.args[0], ast.Constant) and isinstance(n.args[1], ast.Constant):
+                ds[str(n.args[0].value)] = str(n.args[1].value)
+        for k in sorted(ds):
+            opts.append((cname, k, ds[k]))
+    L.append("def cfgDefaults : List (String × String × String) := [" +
+             ", ".join(f'(\"{a}\", \"{k}\", \"{v}\")' for a, k, v in opts) + "]")
 
     # ---- command formats / constants
     base = _cls(cmd, "BaseCmd")
@@ -470,6 +484,17 @@ def gen_Sb31Consts():
             except (ValueError, SyntaxError, TypeError):
                 pass
     d("fuseWordSize", fw, "CmdProgFuses.__init__: self.length //= n")
+    # constructor guard `if len(data) % n [!= 0]: raise SPSDKError` (0 = no guard: partial words are accepted)
+    fg = 0
+    for n in pf_init.body if pf_init is not None else []:
+        if isinstance(n, ast.If) and n.body and isinstance(n.body[0], ast.Raise):
+            t = n.test.left if isinstance(n.test, ast.Compare) and isinstance(n.test.ops[0], ast.NotEq) else n.test
+            if isinstance(t, ast.BinOp) and isinstance(t.op, ast.Mod) and ast.unparse(t.left) == "len(data)":
+                try:
+                    fg = int(ast.literal_eval(t.right))
+                except (ValueError, SyntaxError, TypeError):
+                    fg = BAD
+    d("fuseDataGuard", fg, "CmdProgFuses.__init__: data length must be a multiple of n (0: no guard)")
     # effective HAS_MEMORY_ID_BLOCK of every concrete load-like class (class attribute resolved through the bases)
     def eff_attr(cname, attr, depth=0):
         c = _cls(cmd, cname)
